@@ -4,6 +4,8 @@ Each entry: (keyword in the commit subject, property, what failed before the fix
 import json, subprocess, os
 ROOT = os.path.dirname(os.path.dirname(os.path.abspath(__file__)))
 M = [
+ ('re-spanning a function type', 'C08', '`let v = fn(a: int) -> null { null }; takes(v)` with `fn takes(x: fn(a: str) -> null)`: the parameter type mismatch was reported at the `str` of the signature of takes instead of at the argument'),
+ ('re-spanning an option type', 'C08', '`let v = ?1; takes(v)` with `fn takes(x: ?str)`: the mismatch of the inner types was reported at the `1` of the earlier let (for the result of an imported function: inside the other module) instead of at the argument'),
  ('loop with an empty body never noticed', 'C10', '`fn main() { loop { } }` on the interpreter: no statement or expression is evaluated per iteration, so the context was never polled and Run never returned after cancellation'),
  ('VM integer remainder by zero', 'C02', '`1 % 0` on the VM: Go panic "integer divide by zero" in runInstruction'),
  ('interpreter integer division and remainder', 'C02', '`1 / 0`, `1 % 0` on the interpreter: Go panic "integer divide by zero" in infixHelper'),
